@@ -93,14 +93,40 @@ def field_ref(f, positional_default=False):
         e += '.' + (p if '(' in p else p + '()')
     return e
 
+def doc_blocks(doc):
+    """the documented block rule of doc comments, re-implemented independently: consecutive non-empty lines are joined with a
+    newline; a single empty line inside a block is kept as a paragraph break; TWO empty lines in a row end the block (so a
+    longer run of empty lines produces empty blocks)"""
+    out = []; cur = ''; prev_empty = False
+    for line in doc.split('\n'):
+        if line == '':
+            if prev_empty:
+                prev_empty = False
+                out.append(cur.rstrip()); cur = ''
+            else:
+                prev_empty = True
+        else:
+            if prev_empty:
+                cur += '\n'
+            cur += line + '\n'
+            prev_empty = False
+    if cur != '':
+        out.append(cur.rstrip())
+    return out
+
 def split_doc(doc):
-    """descr / header / footer: chunks separated by two empty lines"""
+    """descr / header / footer: the first block, the second block, and the remaining blocks joined by newlines (empty blocks
+    in front of the footer contribute nothing)"""
     if not doc: return None, None, None
-    chunks = re.split(r'\n\n\n', doc)
-    descr = chunks[0] if chunks else None
-    header = chunks[1] if len(chunks) > 1 and chunks[1] else None
-    footer = '\n'.join(chunks[2:]) if len(chunks) > 2 else None
-    return descr, header, (footer or None)
+    bl = doc_blocks(doc)
+    descr = bl[0] if bl else None
+    header = bl[1] if len(bl) > 1 and bl[1] else None
+    rest = ''
+    for t in bl[2:]:
+        if rest != '':
+            rest += '\n'
+        rest += t
+    return descr, header, (rest or None)
 
 class Member:
     """one struct or enum with its derive input and reference"""
@@ -191,10 +217,14 @@ class Member:
                 # unit struct: a required flag named after the type
                 kn = variant_kebab(self.name)
                 body = '::bpaf::long(%s).req_flag(%s)' % (lit(kn), self.name)
-            if 'adjacent' in self.top: body += '.adjacent()'
-            body += self.top_suffix(self.doc, self.top, variant_kebab(self.name))
             if not is_opts and not cmd and self.doc:
                 body += '.group_help(%s)' % lit(self.doc)
+            if 'adjacent' in self.top: body += '.adjacent()'
+            if not is_opts and not cmd:
+                for t in self.top:
+                    if re.match(r'^(fallback\(.*\)|debug_fallback|display_fallback|hide|hide_usage)$', t):
+                        body += '.' + (t if '(' in t else t + '()')
+            body += self.top_suffix(self.doc, self.top, variant_kebab(self.name))
         else:
             alts = []
             for i, v in enumerate(self.variants):
@@ -281,6 +311,8 @@ def base_family():
     M.append(Member('b_non_ascii', 'struct', 'Intl', top=['options'], fields=[
         F('\u00f1', 'bool', doc='single non-ASCII character: a short name'), F('\u0436', 'Option<u32>'),
         F('gr\u00f6\u00dfe', 'u32', doc='several characters: a long name'), F('\u00e9t\u00e9', 'bool', naming=[('short', None), ('long', None)])]))
+    M.append(Member('b_docs_gap', 'struct', 'DocsGap', top=['options'], doc='Description line\n\n\nHeader line\n\n\n\n\nFooter after a long gap\n\n\nsecond footer block', fields=[F('a', 'bool')]))
+    M.append(Member('b_group_fallback', 'struct', 'GroupF', top=['fallback(GroupF { width: 1, height: 2 })', 'debug_fallback'], doc='Size of the thing', fields=[F('width', 'u32'), F('height', 'u32')]))
     M.append(Member('b_usage', 'struct', 'Usage', top=['options', 'fallback_to_usage'], fields=[F('a', 'u32')]))
     return M
 
